@@ -192,3 +192,19 @@ RFC8032_PH = ("833fe62409237b9d62ec77587520911e9a759cec1d19755b7da901b96dca3d42"
 for _s, _p, _m, _g in RFC8032:
     assert public(bytes.fromhex(_s)).hex() == _p and sign(bytes.fromhex(_s), bytes.fromhex(_m)).hex() == _g
 assert sign(bytes.fromhex(RFC8032_PH[0]), bytes.fromhex(RFC8032_PH[2]), True, b"").hex() == RFC8032_PH[3]
+
+
+def point_with_limb_pattern(rng, i, val, bits=51, nl=5):
+    """a curve point whose non-negative x has limb i (radix 2^bits) equal to val: boundary representations for
+    the conversions between serial and vector limb layouts (input construction only)"""
+    for _ in range(200):
+        x = rng.getrandbits(255) % P
+        x = (x & ~(((1 << bits) - 1) << (bits * i))) | (val << (bits * i))
+        x %= P
+        if x & 1:
+            continue
+        # y^2 = (1 + x^2) / (1 - d x^2)
+        ok, y = sqrt_ratio((1 + x * x) % P, (1 - D * x * x) % P)
+        if ok and (-x * x + y * y - 1 - D * x * x * y * y) % P == 0:
+            return (x, y)
+    return None
